@@ -29,14 +29,18 @@ def specScalar (f : Nat) (impl : List Int) : Bool := impl == [(f : Int)]
 structure PHandler where
   run : List Int → Option Verdict              -- args ↦ model result (+class)
   spec : List Int → List Int → Option Bool     -- args, impl result ↦ spec verdict
+  /-- optional: when `spec` says `false`, WHICH statement of the property fails on this input (printed in the SPECFAIL line) -/
+  why : List Int → List Int → String := fun _ _ => ""
 
 /-- handlers may keep caches (transform tables), hence `IO` -/
 structure Handler where
   run : List Int → IO (Option Verdict)
   spec : List Int → List Int → IO (Option Bool)
+  /-- optional explanation of a `false` spec verdict (only evaluated on failing lines) -/
+  why : List Int → List Int → IO String := fun _ _ => pure ""
 
 def PHandler.lift (h : PHandler) : Handler :=
-  { run := fun a => pure (h.run a), spec := fun a i => pure (h.spec a i) }
+  { run := fun a => pure (h.run a), spec := fun a i => pure (h.spec a i), why := fun a i => pure (h.why a i) }
 
 def withRow (args : List Int) (k : Nat → Row → List Nat → Option α) : Option α :=
   match args with
